@@ -43,8 +43,84 @@ fn decode_vp(claims: &str) -> Result<Presentation<Jwt>, String> {
   v.validate::<CoreDocument, Jwt, Object>(&jwt(claims), &doc(), &JwtPresentationValidationOptions::default()).map(|d| d.presentation).map_err(|e| format!("{e:?}"))
 }
 
+/// C05, bounded exhaustive over a value pool: every claim / credential / presentation member replaced by every value of a pool
+/// of JSON junk (one member at a time, and every pair of members for the date / id members), through signature verification,
+/// claim conversion and full validation with default options: an error or a value, never a panic
+fn junk_claim_values_never_panic() -> Result<(), String> {
+  use identity_credential::validator::{FailFast, JwtCredentialValidationOptions};
+  let pool = ["null", "true", "0", "-1", "1.5", "1e30", "-1e30", "9223372036854775807", "-9223372036854775808", "18446744073709551615", "253402300800", "-62167219201",
+    r#""""#, r#""x""#, r#""did:example:issuer1234""#, r#""did:example:%4""#, r#""http://x/1""#, r#""2020-01-01T00:00:00Z""#, r#""9999-12-31T23:59:60Z""#, "[]", "[1]", r#"["x"]"#, "[[]]", "{}", r#"{"id":5}"#, r#"{"id":"did:example:issuer1234"}"#, r#"{"id":"http://x/1","type":"RevocationBitmap2022","revocationBitmapIndex":"4294967296"}"#,
+    r#"{"id":"http://x/1","type":"StatusList2021Entry","statusPurpose":"revocation","statusListIndex":"18446744073709551616","statusListCredential":"http://x/2"}"#];
+  let top = ["iss", "sub", "nbf", "iat", "exp", "jti", "aud", "nonce", "vc", "vp"];
+  let inner_vc = ["@context", "type", "credentialSubject", "issuer", "issuanceDate", "expirationDate", "credentialStatus", "id", "credentialSchema", "refreshService", "termsOfUse", "evidence", "nonTransferable", "proof", "extra"];
+  let inner_vp = ["@context", "type", "verifiableCredential", "holder", "id", "refreshService", "termsOfUse", "proof", "extra"];
+  fn build(top: &[(&str, &str)], inner_key: &str, inner: &[(&str, &str)], is_vp: bool) -> String {
+    let mut t: Vec<(String, String)> = vec![("iss".into(), format!("\"{DID}\"")), ("nbf".into(), "1000".into())];
+    let mut i: Vec<(String, String)> = if is_vp { vec![("@context".into(), "\"https://www.w3.org/2018/credentials/v1\"".into()), ("type".into(), "\"VerifiablePresentation\"".into()), ("verifiableCredential".into(), "[]".into())] }
+      else { vec![("@context".into(), "\"https://www.w3.org/2018/credentials/v1\"".into()), ("type".into(), "[\"VerifiableCredential\"]".into()), ("credentialSubject".into(), "{\"a\":1}".into())] };
+    for (k, v) in inner { i.retain(|(k2, _)| k2 != k); i.push((k.to_string(), v.to_string())); }
+    let body = i.iter().map(|(k, v)| format!("\"{k}\":{v}")).collect::<Vec<_>>().join(",");
+    t.push((inner_key.to_owned(), format!("{{{body}}}")));
+    for (k, v) in top { t.retain(|(k2, _)| k2 != k); t.push((k.to_string(), v.to_string())); }
+    format!("{{{}}}", t.iter().map(|(k, v)| format!("\"{k}\":{v}")).collect::<Vec<_>>().join(","))
+  }
+  fn probe(claims: String) -> Result<(), String> {
+    let c2 = claims.clone();
+    catch_unwind(move || {
+      let j = jwt(&c2);
+      let v = JwtCredentialValidator::with_signature_verifier(accept_all());
+      let r: Result<DecodedJwtCredential<Object>, _> = v.verify_signature(&j, &[doc()], &JwsVerificationOptions::default());
+      if let Ok(d) = r { let _ = (d.credential.issuer.url().as_str().len(), d.credential.issuance_date.to_unix(), d.credential.serialize_jwt(None).map(|s| s.len())); }
+      for ff in [FailFast::FirstError, FailFast::AllErrors] { let r: Result<DecodedJwtCredential<Object>, _> = v.validate(&j, &doc(), &JwtCredentialValidationOptions::default(), ff); let _ = r.map_err(|e| e.to_string()); }
+      let pv = JwtPresentationValidator::with_signature_verifier(accept_all());
+      let r = pv.validate::<CoreDocument, Jwt, Object>(&j, &doc(), &JwtPresentationValidationOptions::default());
+      if let Ok(d) = r { let _ = (d.presentation.holder.as_str().len(), d.presentation.verifiable_credential.len(), d.presentation.serialize_jwt(&Default::default()).map(|s| s.len())); }
+      let _ = identity_credential::validator::JwtPresentationValidatorUtils::extract_holder::<identity_did::CoreDID>(&j);
+      let _ = identity_credential::validator::JwtCredentialValidatorUtils::extract_issuer_from_jwt::<identity_did::CoreDID>(&j);
+    }).map_err(|_| format!("a validator PANICS for claims {claims}"))
+  }
+  let mut n = 0u32;
+  for is_vp in [false, true] {
+    let (ik, inner) = if is_vp { ("vp", &inner_vp[..]) } else { ("vc", &inner_vc[..]) };
+    for v in pool {
+      for k in top { probe(build(&[(k, v)], ik, &[], is_vp))?; n += 1; }
+      for k in inner { probe(build(&[], ik, &[(k, v)], is_vp))?; n += 1; }
+    }
+    // pairs over the members that interact (dates, ids, issuer / holder, status)
+    let tp = ["nbf", "iat", "exp", "jti", "sub", "iss"];
+    let ip: &[&str] = if is_vp { &["id", "holder", "verifiableCredential"] } else { &["id", "issuer", "issuanceDate", "expirationDate", "credentialSubject", "credentialStatus"] };
+    for a in tp { for va in pool.iter().step_by(2) { for b in ip { for vb in pool.iter().skip(1).step_by(2).chain(pool.iter().take(1)) { probe(build(&[(a, va)], ik, &[(b, vb)], is_vp))?; n += 1; } } } }
+  }
+  // the claims themselves not an object / the vc not an object / deep nesting
+  for c in ["null", "[]", "5", r#""x""#, "{}", r#"{"vc":null}"#, r#"{"vc":[]}"#, r#"{"vp":7}"#] { probe(c.to_owned())?; n += 1; }
+  let deep = format!("{}1{}", "[".repeat(100), "]".repeat(100));
+  probe(build(&[], "vc", &[("credentialSubject", &deep)], false))?; probe(build(&[("aud", &deep)], "vp", &[], true))?;
+  if n < 10_000 { return Err(format!("only {n} inputs")); }
+  Ok(())
+}
+
+/// D5b seen from the validators: the issuer / holder DID of a received token reaches CoreDID::parse, so the dependency's
+/// panic on a trailing percent triple is reachable by whoever sends the token (kept apart from the junk sweep above so that
+/// the sweep stays sensitive to everything else)
+fn percent_triple_issuer_reaches_the_validators() -> Result<(), String> {
+  use identity_credential::validator::{FailFast, JwtCredentialValidationOptions};
+  for id in ["did:example:%41", "did:example:a%2F"] {
+    let vc = format!(r#"{{"iss":"{id}","nbf":1000,"vc":{{"@context":"https://www.w3.org/2018/credentials/v1","type":["VerifiableCredential"],"credentialSubject":{{"a":1}}}}}}"#);
+    let vp = format!(r#"{{"iss":"{id}","nbf":1000,"vp":{{"@context":"https://www.w3.org/2018/credentials/v1","type":"VerifiablePresentation","verifiableCredential":[]}}}}"#);
+    let (j, id2) = (jwt(&vc), id.to_owned());
+    catch_unwind(move || { let r: Result<DecodedJwtCredential<Object>, _> = JwtCredentialValidator::with_signature_verifier(accept_all()).validate(&j, &doc(), &JwtCredentialValidationOptions::default(), FailFast::FirstError); r.is_ok() })
+      .map_err(|_| format!("JwtCredentialValidator::validate PANICS for a token whose iss is {id2}"))?;
+    let (j, id2) = (jwt(&vp), id.to_owned());
+    catch_unwind(move || JwtPresentationValidator::with_signature_verifier(accept_all()).validate::<CoreDocument, Jwt, Object>(&j, &doc(), &JwtPresentationValidationOptions::default()).is_ok())
+      .map_err(|_| format!("JwtPresentationValidator::validate PANICS for a token whose iss is {id2}"))?;
+  }
+  Ok(())
+}
+
 fn main() {
   std::panic::set_hook(Box::new(|_| {}));
+  w("jc_junk_claim_values_never_panic", junk_claim_values_never_panic);
+  w("jc_percent_triple_issuer_reaches_the_validators", percent_triple_issuer_reaches_the_validators);
   w("jc_dates_window_and_precedence", || {
     for s in [MIN, 0, MAX] {
       for c in [vc_claims(&format!(r#""nbf":{s},"#), ""), vc_claims(&format!(r#""iat":{s},"#), ""), vc_claims(&format!(r#""nbf":{s},"iat":5,"#), "")] {
